@@ -10,6 +10,12 @@ def addPart_index_guard : String := "part.Index >= ps.total"
 /-- cond types/part_set.go PartSet.AddPart -/
 def addPart_position_guard : String := "part.Proof.Index != int64(part.Index) || part.Proof.Total != int64(ps.total)"
 
+/-- cond libs/bits/bit_array.go BitArray.setIndex -/
+def bits_setIndex_guard : String := "i >= bA.Bits"
+
+/-- cond libs/bits/bit_array.go BitArray.ValidateBasic -/
+def bits_validate_elems_guard : String := "len(bA.Elems) != expected"
+
 /-- cond consensus/state.go State.finalizeCommit -/
 def c01_finalize_hash : String := "!block.HashesTo(blockID.Hash)"
 
@@ -451,6 +457,18 @@ def c20_tx_hash_guard : String := "!bytes.Equal(txH, hash) || !bytes.Equal(res.H
 /-- has light/rpc/client.go Client.updateLightClientIfNeededTo -/
 def c20_update_uses_latest_trusted : Bool := true
 
+/-- cond consensus/state.go State.addVote -/
+def cons_addVote_nil_lastcommit_guard : String := "cs.LastCommit == nil"
+
+/-- has consensus/reactor.go NewValidBlockMessage.ValidateBasic -/
+def cons_newValidBlock_validates_bits : Bool := true
+
+/-- has consensus/reactor.go ProposalPOLMessage.ValidateBasic -/
+def cons_proposalPOL_validates_bits : Bool := true
+
+/-- has consensus/reactor.go VoteSetBitsMessage.ValidateBasic -/
+def cons_voteSetBits_validates_bits : Bool := true
+
 /-- order consensus/state.go State.defaultDecideProposal -/
 def cs_proposal_flush_first : List String := ["FlushAndSync", "SignProposal"]
 
@@ -509,7 +527,7 @@ def mconn_unknown_channel_guard : String := "pkt.PacketMsg.ChannelID < 0 || pkt.
 def mempoolV0_admit_atomic : Bool := true
 
 /-- order mempool/v0/clist_mempool.go CListMempool.resCbFirstTime -/
-def mempoolV0_admit_order : List String := ["mem.isFull", "mem.txsMap.Load", "mem.addTx"]
+def mempoolV0_admit_order : List String := ["mem.addTxMtx.Lock", "mem.isFull", "mem.txsMap.Load", "mem.addTx"]
 
 /-- has mempool/v0/clist_mempool.go CListMempool.resCbFirstTime -/
 def mempoolV0_inpool_guard : Bool := true
@@ -580,6 +598,12 @@ def pv_stepPropose : Int := 1
 /-- has privval/file.go FilePV.signVote -/
 def pv_vote_persist_before_release : Bool := true
 
-def factCount : Nat := 193
+/-- const types/params.go MaxBlockPartsCount -/
+def types_MaxBlockPartsCount : Int := 1601
+
+/-- const types/vote_set.go MaxVotesCount -/
+def types_MaxVotesCount : Int := 10000
+
+def factCount : Nat := 201
 
 end Tmv.Facts
